@@ -3,6 +3,7 @@ import Proofs.Props.C15
 import Proofs.Lemmas.ServerBound
 import Proofs.Props.C09
 import Proofs.Lemmas.ClientInv
+import Proofs.Lemmas.Closed
 /-!
   C03 — RPCs sharing a tunnel are independent; no head-of-line blocking
   (server endpoint).  Locality: a stimulus addressed to RPC `sid` changes only
@@ -110,5 +111,29 @@ theorem C03_receive_loops_never_send :
     Proofs.C15.loopSendViolations TunnelModel.Generated.accessTable = [] ∧
     Proofs.C15.loopRootIds.length = Proofs.C15.loopRoots.length :=
   Proofs.C15.C15_receive_loops_never_send
+
+/-! ### bounded carriers: the closed model of a whole tunnel (`TunnelModel/Closed.lean`) -/
+
+open TunnelModel.Closed Proofs.Closed in
+/-- **A stalled RPC does not hold up the others, even over carriers of one
+    frame.**  Any number of half-streams in both directions share two carriers
+    of capacity `K ≥ 1`; any subset of the applications never reads.  In every
+    maximal execution — whatever the schedule — every half-stream whose
+    application reads has delivered every byte submitted on it and has its full
+    window back. -/
+theorem C03_stalled_streams_do_not_block_others {K W cm : Nat} (hK : 0 < K) (hW : 0 < W) {cfg : Cfg}
+    {as : List Act} {s : St} (hr : run K cm (init W cfg) as = some s) (hmax : Stuck K cm s)
+    {i : Nat} {d : Dir} {msgs : List Nat} (hc : cfg[i]? = some (d, true, msgs)) :
+    ∃ h, s.halves[i]? = some h ∧ h.delivered = msgs.sum ∧ h.queue = [] ∧ h.win = W := by
+  obtain ⟨h, hi, _, _, _, hw, _⟩ := completes hK hW hr hmax hc
+  obtain ⟨e1, _, _, _, e5, e6⟩ := hw rfl
+  exact ⟨h, hi, e1, e5, e6⟩
+
+open TunnelModel.Closed Proofs.Closed in
+/-- ... and while it still has something to do, the system can move. -/
+theorem C03_no_deadlock_bounded {K W cm : Nat} (hK : 0 < K) (hW : 0 < W) {cfg : Cfg} {s : St}
+    (hr : Reachable K W cm cfg s) {i : Nat} {h : Half} (hi : s.halves[i]? = some h)
+    (hw : h.willing = true) (hu : Unfinished s i h) : ∃ a, (step K cm s a).isSome = true :=
+  no_deadlock hK hW hr hi hw hu
 
 end Proofs.C03
